@@ -69,7 +69,7 @@ def run(ck):
     facts = ck.facts
     ck.decided('D1 decision structure of equal_graph_with_options: Some(true) only under is_identity of (adjoint of one argument plugged with the OTHER argument, fully simplified), with the scalar-argument test in exact mode; Some(false) only on a dimension mismatch or (identity, exact mode, non-zero argument); None otherwise',
                'D2 equal_graph_tensor: false on dimension mismatch, otherwise exactly to_tensor4() == to_tensor4() of the two different arguments; equal_graph_dim compares both input and output counts; wrappers pass their arguments through in order',
-               'D3 inherited: the identity test (C11-D1) and soundness of the simplifier (C01) are reported under their own ids')
+               'D3 the pieces the definite answers are built from: is_identity contract, adjoint / plug / append_graph effect schemas, the seam edge-type merge table (same rules as C11); soundness of the simplifier is C01')
     ck.not_decided('agreement with ground truth (values)', 'that |scalar| = 1 in exact mode for non-circuit diagrams')
     f = ck.fn(EQ)
     res = decision_structure(f)
@@ -122,6 +122,21 @@ def run(ck):
         if ok and len(cs[0]['args']) == 3:
             ok = hir.local_name(cs[0]['args'][2]) == ps[2]
         ck.ob('R-PATH', key, ok, ck.site(key), '%s must translate its first and second circuit and pass the two graphs on in that order' % key)
+    # D3: the pieces of graph.rs the definite answers are built from (same rules as C11, evaluated here because a wrong "equal" follows from any of them)
+    import os, sys
+    sys.path.insert(0, os.path.dirname(os.path.dirname(os.path.dirname(os.path.abspath(__file__)))))
+    from refs import effects_ref as E
+    from .. import reffect, enumeval
+    from .C11 import is_identity_contract, ISID
+    r = is_identity_contract(facts)
+    for name, ok in (r or [('analysable', False)]):
+        ck.ob('R-MATCH', ISID + '/' + name.split(' (')[0], ok, ck.site(ISID), 'is_identity (the test behind every "equal" answer) answers true without establishing: %s' % name)
+    for key in ('graph::GraphLike::adjoint', 'graph::GraphLike::to_adjoint', 'graph::GraphLike::plug', 'graph::GraphLike::append_graph'):
+        reffect.check_schema(ck, 'R-EFFECT', key, E.C11_SCHEMAS[key], no_vars=False)
+    ET = 'graph::EType::'
+    mg = enumeval.table(facts, 'graph::EType::merge', [[ET + 'N', ET + 'H'], [ET + 'N', ET + 'H']])
+    wantm = {(ET + 'N', ET + 'N'): ET + 'N', (ET + 'N', ET + 'H'): ET + 'H', (ET + 'H', ET + 'N'): ET + 'H', (ET + 'H', ET + 'H'): ET + 'N'}
+    ck.ob('R-TABLE-basis', 'EType::merge', mg == wantm, ck.site('graph::EType::merge'), 'seam edge types must merge as the parity of their Hadamards; table is %s' % {tuple(x.rsplit('::', 1)[1] for x in k): str(v).rsplit('::', 1)[-1] for k, v in mg.items()})
     ck.note('the definite answer "equal" rests on C11-D1 (is_identity requires plain wires; fixed in aa6cb9f) and on C01 (simplifier soundness)')
     # positive control
     fx = fixture()
